@@ -22,8 +22,21 @@ def configs(tier):
     return [(v, m, "plain") for v in vcore.VARIANTS for m in ("", vcore.ALL_OFF)] + [("native", "", "asan")]
 
 
+# "any single allocation or mapping" is quantified over the cost parameters too: the mapping size decides which mmap flags / paths are taken
+# (sizes that are and are not multiples of 2 MiB, i.e. of a huge page; the 64 MiB interactive preset in thorough)
+SIZED = ["argon2id_raw", "argon2i_raw", "pwhash_raw", "argon2id_raw65", "argon2id_str", "pwhash_str", "argon2id_verify_ok", "argon2id_verify_wrong", "pwhash_verify_ok", "pwhash_verify_wrong"]
+SIZES_Q = [1 << 20, 2 << 20, 3 << 20, 8 << 20]
+
+
 def gen(ctx, tier, rng):
     L = []
+    for a in SIZED:
+        for m in (SIZES_Q if tier == "quick" else SIZES_Q + [4 << 20, 6 << 20, 16 << 20, 64 << 20]):
+            L.append("fault.run %s.m%d count" % (a, m))
+            for i in range(0, 9):
+                L.append("fault.run %s.m%d only %d" % (a, m, i))
+                if i % 2 == 0 or tier != "quick":
+                    L.append("fault.run %s.m%d from %d" % (a, m, i))
     for a in APIS:
         L.append("fault.run %s count" % a)
         for i in range(0, 11):
